@@ -35,6 +35,9 @@ func cmdMatrix(args []string) {
 	_ = os.RemoveAll(work)
 	_ = os.MkdirAll(work, 0o755)
 	solveAllTier(obls, opts, work)
+	if acc := p.tryVariants(obls, opts, work); len(acc) > 0 {
+		obls = replaceByVariants(obls, acc, func(o *Obligation) bool { return true })
+	}
 	var props []string
 	for i := 1; i <= 17; i++ {
 		props = append(props, fmt.Sprintf("C%02d", i))
